@@ -164,13 +164,36 @@ def unflat(vec, p, order):
     return out
 
 
-def fd_grad(f, p, order, hstep=1e-6):
+_FD_SRC = {}   # id(result array) -> (f, p, order, hstep): lets an oracle ask for the refined estimate only when the cheap one disagrees
+
+
+def _central(f, p, order, h):
     v = flat(p, order)
     g = np.zeros_like(v)
     for k in range(len(v)):
-        e = np.zeros_like(v); e[k] = hstep
-        g[k] = (f(unflat(v + e, p, order)) - f(unflat(v - e, p, order))) / (2 * hstep)
+        e = np.zeros_like(v); e[k] = h
+        g[k] = (f(unflat(v + e, p, order)) - f(unflat(v - e, p, order))) / (2 * h)
     return g
+
+
+def fd_grad(f, p, order, hstep=1e-6):
+    g = _central(f, p, order, hstep)
+    if len(_FD_SRC) > 64:
+        _FD_SRC.clear()
+    _FD_SRC[id(g)] = (f, p, order, hstep, g)
+    return g
+
+
+def fd_refined(g):
+    """ONE Richardson step on top of a central-difference estimate returned by fd_grad: g(h) and g(h/2) have truncation errors C h^2 and
+    C h^2 / 4, so (4 g(h/2) - g(h)) / 3 is exact to O(h^4).  Plain central differences were off by 3.5e-5 relative in the
+    near-cancellation regime (third derivatives of the NLL of order 1e8; seed 38 of the clean-tree seed sweep tripped the 2e-5 tolerance of
+    the oracle below).  Computed lazily - only when the cheap estimate disagrees - to keep the quick tier within its budget."""
+    src = _FD_SRC.get(id(g))
+    if src is None or src[4] is not g:
+        return g
+    f, p, order, h, _ = src
+    return (4.0 * _central(f, p, order, h / 2) - g) / 3.0
 
 
 # ------------------------------------------------------------------ regime huge-amplitude (extension round, package X2)
@@ -623,6 +646,10 @@ def _one_case(ctx, case):
         if kind == "dm":
             tol = max(tol, 1e-6 * len(e))
         ok = bool(np.all(np.abs(e - d_) <= tol))
+        if not ok:   # truncation error of the cheap estimate? ask for the refined one before judging
+            d_ = fd_refined(d_)
+            ok = bool(np.all(np.abs(e - d_) <= tol))
+            ctx.count("fd oracle: refined (Richardson) estimate used: " + ("agrees" if ok else "still disagrees"))
         ctx.oracle(f"exact gradient == d NLL / d theta (net {i})", ok, case,
                    detail={"impl": e.tolist(), "fd": d_.tolist(), "maxdiff": float(np.max(np.abs(e - d_)))}, sig=f"{kind}/fd-net{i}", theorem=TH[kind])
     # batch = sum of per-sample, permutation / split invariance, 1-D form
